@@ -41,7 +41,7 @@ type Ev struct {
 }
 
 type C16Case struct {
-	Overlap  bool `json:"overlap"`   // B's selector equals A's
+	Overlap  bool `json:"overlap"` // B's selector equals A's
 	HasB     bool `json:"has_b"`
 	HasEmpty bool `json:"has_empty"` // a set with an empty selector is cached
 	Events   []Ev `json:"events"`
